@@ -36,6 +36,12 @@ HERE = os.path.dirname(os.path.abspath(__file__))
 LEAN = os.path.join(os.path.dirname(os.path.dirname(HERE)), "lean")
 
 
+def silence():
+    """library noise off (the shared table generator switches logging back on after it ran)"""
+    warnings.filterwarnings("ignore")
+    logging.disable(logging.CRITICAL)
+
+
 class _Clock(object):
     """stands in for the `time` module inside kmip.services.server.monitor"""
 
@@ -123,6 +129,7 @@ def classify_exception(e):
 
 class ImplMonitor(object):
     def __init__(self):
+        silence()
         self.dir = tempfile.mkdtemp(prefix="verif-c18-", dir=_scratch_base())
         self.builtin_mutated = False       # a built-in policy OBJECT was modified in place
         self.reset()
@@ -195,6 +202,7 @@ _READ_DIR = [None]
 
 def impl_read(text):
     """read_policy_from_file on a document with this text"""
+    silence()
     if _READ_DIR[0] is None or not os.path.isdir(_READ_DIR[0]):
         _READ_DIR[0] = tempfile.mkdtemp(prefix="verif-c18r-", dir=_scratch_base())
     p = os.path.join(_READ_DIR[0], "doc-%d.json" % os.getpid())
